@@ -451,7 +451,24 @@ def f_mapbool(a):
     return {"op": "mapbool", "sr": srmodel(a["sr"]), "in": a["G"], "out": O, "sigma": a["G"]["V"], "L": a["L"]}
 
 
-FUNCS = {"pnextseq": f_pnextseq, "mapbool": f_mapbool, "pnext": f_pnext, "ntw": f_ntw, "ntw_vs_parser": f_ntw_vs_parser, "lmcall": f_lmcall,"parse": f_parse, "prefix": f_prefix, "prefixgrammar": f_prefixgrammar, "derivative": f_derivative,
+def f_pnextrl(a):
+    """p_next on a LONG context; the grammar is built with float weights, as a user would."""
+    G = a["G"]
+    g = CFG(R=us.Float, S=G["S"], V={unt(x) for x in G["V"]})
+    for r in G["rules"]:
+        g.add(float(Fraction(*r["w"])), r["h"], *[unt(y) if y in G["V"] else y for y in r["b"]])
+    lm = _lm(a["backend"], g)
+    ctx = ustr(a["ctx"])
+    if a.get("stepwise"):                 # warm the cache token by token, as generation does
+        for i in range(0, len(ctx), a["stepwise"]):
+            lm.p_next(ctx[:i])
+    p = lm.p_next(ctx)
+    toks = sorted(lm.V, key=repr)
+    return {"op": "pnextrl", "sr": "Rat", "G": G, "ctx": a["ctx"], "eos": EOS_NAME, "n": len(ctx),
+            "dist": [[tname(t), enc_w(us.Float, float(p[t]))] for t in toks]}
+
+
+FUNCS = {"pnextrl": f_pnextrl, "pnextseq": f_pnextseq, "mapbool": f_mapbool, "pnext": f_pnext, "ntw": f_ntw, "ntw_vs_parser": f_ntw_vs_parser, "lmcall": f_lmcall,"parse": f_parse, "prefix": f_prefix, "prefixgrammar": f_prefixgrammar, "derivative": f_derivative,
          "transform": f_transform, "treesum": f_treesum, "lang": f_lang, "mask": f_mask, "addeos": f_addeos,
          "normalize": f_normalize, "derivcall": f_derivcall, "explen": f_explen}
 
